@@ -70,6 +70,20 @@ def run(tier, seed):
     for kind, p in valid_sets:
         for route in ("kwargs", "config", "yaml"):
             ops.append({"op": "construct", "solver": kind, "route": route, "params": p, "problem": FOREST, "model_args": margs(kind, p), "_valid": True})
+    # the other shipped problems through every route (sequence-valued and string-valued problem parameters travel through the
+    # configuration object and the YAML file too)
+    from harness.c10 import PROBS
+    for j, (pk, kw) in enumerate(PROBS[1:]):
+        kw = dict(kw)
+        if pk == "mirjalili" and tier != "quick" and seed % 2:
+            kw.update(max_useful_life=3, useful_life_at_arrival_distribution_c_0=[0.5, 0.25], useful_life_at_arrival_distribution_c_1=[-0.25, 0.125])
+        for kind in (["vi", "periodic"] if tier == "quick" else KINDS):
+            if kind == "rvi" and pk != "hendrix":
+                continue
+            bp = dict(base_params(kind), max_batch_size=64)
+            for route in ("kwargs", "config", "yaml"):
+                ops.append({"op": "construct", "solver": kind, "route": route, "params": bp, "problem": {"target": shipped.T[pk], "kwargs": kw},
+                            "model_args": margs(kind, bp), "_valid": True, "_problem": pk})
     # invalid values: one field beyond its domain at a time
     for kind in KINDS:
         b = base_params(kind)
@@ -119,8 +133,8 @@ def run(tier, seed):
                     res.disagreements.append({"channel": "C20/problem-config", "case": {k: v for k, v in op.items() if k != "model_args"}, "model": m, "impl": i, "failing_input": True,
                                               "what": "problem configuration accepted/rejected contrary to the documented domain", "key": "problem-config"})
                 continue
-            case = {"solver": op["solver"], "route": op["route"], "params": op["params"], "bad_problem": op.get("bad_problem", False)}
-            res.nontrivial.add((op["solver"], op["route"], str(sorted(op["params"].items())), op.get("bad_problem", False)))
+            case = {"solver": op["solver"], "route": op["route"], "params": op["params"], "bad_problem": op.get("bad_problem", False), "problem": op["problem"]}
+            res.nontrivial.add((op["solver"], op["route"], str(sorted(op["params"].items())), op.get("bad_problem", False), op.get("_problem", "forest")))
             mval = (m or "").split(" ")[0]
             if not op["_valid"]:
                 res.count("invalid:" + di.get("construct", "?"))
@@ -152,7 +166,8 @@ def run(tier, seed):
                                           "what": f"a parameter set accepted by the validators does not construct/solve by route '{op['route']}': {di.get('construct')} {di.get('solve', '')} {di.get('msg', '')}",
                                           "key": key})
                 continue
-            by_set.setdefault((op["solver"], str(sorted(op["params"].items()))), {})[op["route"]] = (di, i)
+            by_set.setdefault((op["solver"], str(sorted(op["params"].items())), op.get("_problem", "forest")), {})[op["route"]] = (di, i)
+            res.count("valid-route-problem:" + op.get("_problem", "forest"))
             dm = core.parse_resp(m)
             if "thr" in dm and "thr" in di:
                 a, b_ = Fraction(dm["thr"]), Fraction(di["thr"])
@@ -164,7 +179,7 @@ def run(tier, seed):
     for key, routes in by_set.items():
         vals = {r: (d["iter"], d["values"], d["policy"], d["thr"]) for r, (d, _) in routes.items()}
         if len(set(vals.values())) > 1:
-            res.disagreements.append({"channel": "C20/routes-differ", "case": {"solver": key[0], "params": key[1]}, "model": "", "impl": str(vals)[:500], "failing_input": True,
+            res.disagreements.append({"channel": "C20/routes-differ", "case": {"solver": key[0], "params": key[1], "problem": key[2]}, "model": "", "impl": str(vals)[:500], "failing_input": True,
                                       "what": "the construction routes give different results", "key": "routes-differ"})
         else:
             res.count("routes-identical")
